@@ -623,3 +623,45 @@ def r06_9(ctx):
 
     r03_4(ctx)
     r12_7(ctx)
+
+
+def operand_order(ctx):
+    """the operand list of an operator node is in C evaluation order (the order its pending side effects are sequenced in): condition
+    before the arms of ?:, left before right, arguments left to right"""
+    from .c02 import members_by_value
+
+    idx = get_index(ctx.env)
+    P = lambda l: mk_pure(l, mk_vt("t" + l, True, 32))
+    ar = members_by_value(idx, "ArithmeticType")
+    bo = members_by_value(idx, "BitOperationType")
+    cm = members_by_value(idx, "CompareOpType")
+    bl = members_by_value(idx, "BooleanOpType")
+    specs = [
+        ("Ternary", lambda: ["n", P("cond"), P("then"), P("else")], ["cond", "then", "else"]),
+        ("ArithmeticOp", lambda: ["n", P("a"), P("b"), ar["-"]], ["a", "b"]),
+        ("BitOp", lambda: ["n", P("a"), P("b"), bo["<<"]], ["a", "b"]),
+        ("CompareOp", lambda: ["n", P("a"), P("b"), cm["<"]], ["a", "b"]),
+        ("BooleanOp", lambda: ["n", P("a"), P("b"), bl["&&"]], ["a", "b"]),
+    ]
+    for c, mk, exp in specs:
+        fi = idx.resolve_method(c, "__init__")
+        ctx.need(fi is not None, f"{c}.__init__ not found")
+
+        def once(i, c=c, mk=mk):
+            o = AObj(c, {}, label="node")
+            i.call_function(fi, mk(), self_obj=o)
+            return o
+        outs = Interp(idx).explore(once)
+        got = []
+        for o in outs:
+            ops = o.value.fields.get("ops") if o.kind == "return" and isinstance(o.value, AObj) else None
+            got.append([lab(x) for x in ops] if isinstance(ops, list) else str(o.value)[:40])
+        ctx.check(f"{c}: operands listed in evaluation order", got == [exp], str(exp), str(got), fn_where(idx, fi))
+
+
+@rule("R06.10", "C06", "evaluation order and return discipline: operator nodes list their operands in C evaluation order (the order pending effects are flushed in); bundled routine bodies return only where nothing can follow", min_instances=10)
+def r06_10(ctx):
+    from .c08 import return_positions_lint
+
+    operand_order(ctx)
+    return_positions_lint(ctx)
